@@ -13,7 +13,7 @@ from .ctx import Ctx, Undecided, PathEnd, Signal, PyExc, Ret
 from .interp import Interp, ModuleIndex, Frame, mk, truth, as_bytes_term, as_str_term, py_exc
 from .models import Models
 from . import models as M
-from .values import (SV, Ref, Rope, SymSeq, Ext, ExcVal, BigInt, Closure, BoundMethod, ValMethod, Opaque,
+from .values import (SV, Ref, Rope, SymSeq, Ext, ExcVal, BigInt, Closure, BoundMethod, ValMethod, Opaque, OptV,
                      z, tag_of, concrete)
 
 PKG = "websocket"
@@ -59,6 +59,7 @@ class Engine:
         self.current_target = None
         self.str_to_int_hook = None
         self.after_call = {}  # (caller qualname, callee name) -> ghost statement fn(c, frame, result)
+        self.split_hooks = {}  # function qualname -> model of str.split inside that function
         self.cut_calls = {}  # (caller qualname, callee qualname) -> extra requires; the path ends after the call's requires
 
     # ------------------------------------------------------------------ registry
@@ -326,7 +327,32 @@ class Engine:
         return mk("int", M_int_val(v.t))
 
     def symdict_store(self, c, obj, idx, v, node):
-        raise Undecided("dict store with symbolic key")
+        """d[k] = v with a symbolic str key: the dict becomes an abstract map (z3 arrays key -> value, key -> present)."""
+        cell = c.cell(obj)
+        self.to_symmap(c, cell)
+        if tag_of(idx) != "str" or tag_of(v) != "str":
+            raise Undecided("abstract dict supports str keys and str values only")
+        d = cell.data
+        d["$map"] = z3.Store(d["$map"], z(idx), z(v))
+        d["$dom"] = z3.Store(d["$dom"], z(idx), z3.BoolVal(True))
+
+    def to_symmap(self, c, cell):
+        d = cell.data
+        if "$map" in d:
+            return
+        m = z3.K(smt.S, z3.StringVal(""))
+        dom = z3.K(smt.S, z3.BoolVal(False))
+        for k, (p, v) in d.items():
+            if not isinstance(k, str) or p is not True or tag_of(v) != "str":
+                raise Undecided("cannot turn this dict into an abstract map")
+            m = z3.Store(m, z3.StringVal(k), z(v))
+            dom = z3.Store(dom, z3.StringVal(k), z3.BoolVal(True))
+        cell.data = {"$map": m, "$dom": dom}
+
+    def symmap_get(self, c, cell, key):
+        d = cell.data
+        kz = z(key)
+        return z3.Select(d["$dom"], kz), SV("str", z3.Select(d["$map"], kz))
 
     # ------------------------------------------------------------------ methods of values
     def call_value_method(self, c, val, name, args, kwargs, node):
@@ -334,6 +360,17 @@ class Engine:
         if h:
             return h(c, val, args, kwargs, node)
         tg = tag_of(val)
+        if isinstance(val, dict) and name in ("items", "keys", "values", "get"):
+            R = self.interp.reflect
+            if name == "items":
+                return tuple((k, R(v)) for k, v in val.items())
+            if name == "keys":
+                return tuple(val.keys())
+            if name == "values":
+                return tuple(R(v) for v in val.values())
+            ok, k = concrete(args[0])
+            if ok:
+                return R(val.get(k, args[1] if len(args) > 1 else None))
         if isinstance(val, Ref):
             cell = c.cell(val)
             if cell.kind == "list":
@@ -379,6 +416,15 @@ class Engine:
 
     def dict_method(self, c, ref, cell, name, args, kwargs, node):
         d = cell.data
+        if "$map" in d:
+            if name == "get" and tag_of(args[0]) == "str":
+                present, val = self.symmap_get(c, cell, args[0])
+                default = args[1] if len(args) > 1 else None
+                if default is None:
+                    return OptV(z3.simplify(z3.Not(present)), val)
+                if tag_of(default) == "str":
+                    return SV("str", z3.If(present, val.t, z(default)))
+            raise Undecided(f"abstract dict .{name}")
         if name in ("get", "pop"):
             ok, k = concrete(args[0])
             if not ok:
@@ -455,6 +501,8 @@ class Engine:
             if not (isinstance(val, (bytes, bytearray)) and len(val) == 0):
                 raise Undecided("bytes.join with separator")
             return mk("bytes", smt.cat_all([as_bytes_term(x) for x in items]))
+        if name == "strip" and not args:
+            return mk("bytes", M.bytes_strip(as_bytes_term(val)))
         raise Undecided(f"bytes.{name}")
 
     def str_method(self, c, val, name, args, kwargs, node):
@@ -510,6 +558,11 @@ class Engine:
             return mk("str", r)
         if name == "replace" and len(args) == 2 and all(isinstance(x, str) for x in args):
             return mk("str", M.str_replace_all(as_str_term(val), z3.StringVal(args[0]), z3.StringVal(args[1])))
+        if name == "isdigit" and not args:
+            t = as_str_term(val)
+            r = M.str_isdigit(t)
+            c.assume(z3.Implies(r, z3.And(M_int_ok(t), M_int_val(t) >= 0, z3.Length(t) > 0)))
+            return mk("bool", r)
         if name == "lower":
             return mk("str", M.str_lower(as_str_term(val)))
         if name == "strip" and not args:
@@ -521,6 +574,11 @@ class Engine:
         (up to 3 parts are built exactly; more parts are represented by their count only)."""
         t = as_str_term(val)
         sepv = z3.StringVal(sep)
+        hook = self.split_hooks.get(c.frames[-1].qual) if c.frames else None
+        if hook is not None:
+            r = hook(c, val, sep, maxsplit, node)
+            if r is not None:
+                return r
         ok, ms = concrete(maxsplit)
         if not ok:
             raise Undecided("split with symbolic maxsplit")
